@@ -22,7 +22,18 @@ CHECKS = {
         level_text="seeded random operation sequences over all sizes/flag sets compared step by step with a deque model; "
                    "finds violations reachable by bounded op lists, proves nothing about unexplored ones",
         level_note="trusted: the harness model (deque + capacity arithmetic), ASan/UBSan, the decoder's distribution",
-        stages=[rnd("seq", "c07", 300000, 6000000, essential=["wrapped", "straddle", "exact_fit", "refused", "marker_payload", "enobufs", "empty_read", "full_S_chunk"])],
+        stages=[rnd("seq", "c07", 500000, 10000000, essential=["wrapped", "straddle", "exact_fit", "refused", "marker_payload", "enobufs", "empty_read", "full_S_chunk"])],
         assumptions=["single-threaded use (concurrent use is C01's subject)"],
+    ),
+    "C20": dict(
+        title="handle database",
+        level="exploration",
+        design_ref="DESIGN.md section 4, C20",
+        technique="model-based property testing: generated handle op lists vs. a slot/generation/refcount model",
+        level_text="seeded random op lists over three databases (live, dead, forged and reused handles) compared after every op with a slot/generation/refcount model, "
+                   "including 'a refused op changed nothing' checked on every other live object",
+        level_note="trusted: the model; random() is interposed so check words never repeat within a case (the 2^-31 collision inherent in the handle design is out of scope)",
+        stages=[rnd("ops", "c20", 1500000, 30000000, essential=["slot_reused", "stale_after_reuse", "destroy_with_refs", "bogus_handle", "iterate", "over_put_free", "second_destroy"])],
+        assumptions=["single-threaded use", "no-check handles (qb_hdb_nocheck_convert) are not generated: the statement does not cover them"],
     ),
 }
